@@ -93,12 +93,14 @@ impl RefModel {
                 }
             }
             Op::HistW => {
-                // the file is replaced by the session; everything in the session is now in the file
+                // the file is replaced by the session. `history -w` is not one of the operations the
+                // property quantifies over, and bash itself keeps the session's lines "unsaved" after it
+                // (the upstream suite pins exactly that, history.yaml "history -w"): the saved flags stay
+                // as they are, so a later save appends those lines again.
                 self.file.clear();
                 let ts = self.tsflag;
-                for it in self.items.iter_mut() {
+                for it in self.items.iter() {
                     Self::write_item(&mut self.file, it, ts);
-                    it.2 = true;
                 }
             }
             Op::NewSession => {
